@@ -40,7 +40,7 @@ fn settings_with_scale(s: f32) -> Settings {
     }
 }
 
-//@ harness: o11_3_size_one_cell props=C11,C12,C06 tier=quick obl=O11.3 timeout=1500 mem=14
+//@ harness: o11_3_size_one_cell props=C11,C12,C06 tier=quick obl=O11.3 timeout=800 mem=14
 //@ desc: CellBuffer with exactly one occupied cell (x <= 1000, y <= 1000, any char) and the empty CellBuffer, scale = any positive f32 with <= 8 significant bits, exponent -4..6: get_size = (scale*(x+2), 2*scale*(y+2)); empty => (2*scale, 4*scale); so size is linear in scale and moving the cell by (k,n) adds scale*(k, 2n)
 //@ encodes: CellBuffer::get_size, CellBuffer::bounds, Cell::width, Cell::height
 #[kani::proof]
